@@ -184,13 +184,20 @@ def run(ctx, anchors=None):
              "the writer sets only flag bit 0, under fAllowWitness && HasWitness()", "the writer emits the flag byte(s) %s / not under HasWitness()" % sorted(symx.show(x) for x in wf))
     # ---- R13.2
     NOWIT = fb.var("SERIALIZE_TRANSACTION_NO_WITNESS").get("value")
+    from .. import symx as _sx13
+    X13 = _sx13.Explorer(prog, inline=lambda fn, n: fn.file == "primitives/transaction.cpp", transparent=lambda n: True)
     for name, want in (("CTransaction::ComputeHash", NOWIT), ("CMutableTransaction::GetHash", NOWIT), ("CTransaction::ComputeWitnessHash", 0)):
         f = fb.fn(name)
-        calls = [n for n in f.nodes() if n["k"] == "call" and n.get("n") == "SerializeHash"]
+        try:
+            outs = [o for o in X13.explore(f, this=("a", "this")) if o.status == "ret"]
+        except _sx13.Unsupported as e:
+            raise AnalysisBroken("R13.2: %s: %s" % (name, e))
         ctx.site()
-        v = astq.const_value(calls[0]["args"][2]) if calls and len(calls[0]["args"]) >= 3 else None
-        ctx.inst(len(calls) == 1 and v == want, "R13.2", "hash-version:" + name, f.loc(), "%s serialises with version flags 0x%x" % (name, want),
-                 "%s hashes the serialisation with version flags %s (expected 0x%x): the %s covers the wrong bytes" % (name, v, want, "txid" if want else "wtxid"))
+        hashed = [o.ret for o in outs if isinstance(o.ret, tuple) and o.ret[:2] == ("ap", "SerializeHash")]
+        vs = sorted({(r[4][1] if len(r) >= 5 and _sx13.is_const(r[4]) else None) for r in hashed}, key=repr)
+        whole = all(len(r) >= 3 and r[2] == ("f", ("a", "this"), "*") for r in hashed)
+        ctx.inst(bool(hashed) and vs == [want] and whole, "R13.2", "hash-version:" + name, f.loc(), "%s serialises *this with version flags 0x%x" % (name, want),
+                 "%s hashes the serialisation with version flags %s (expected 0x%x): the %s covers the wrong bytes" % (name, vs, want, "txid" if want else "wtxid"))
     # ---- R13.3
     exc = ExcEngine(prog)
     for mfile in ("btcdeb.cpp", "tap.cpp"):
@@ -214,7 +221,11 @@ def run(ctx, anchors=None):
     coin = fb.var("COIN")
     ctx.inst(coin.get("value") == 100000000, "R13.4", "COIN", "%s:%d" % (coin["file"], coin["line"]), "COIN == 100000000")
     pt = fb.fn("Instance::parse_transaction")
-    _cm.require_names(pt, ["p", "c"], "R13.4")
+    # the amount-prefix parser: parse_transaction itself or a same-file helper it calls
+    cands = [pt] + [fb.funcs[i] for i in sorted(prog.reachable([pt])) if i in fb.funcs and fb.funcs[i].file == pt.file and fb.funcs[i].body is not None and fb.funcs[i] is not pt]
+    holder = [g for g in cands if any(n["k"] == "call" and n.get("n") == "ParseFixedPoint" for n in g.nodes())]
+    if holder:
+        pt = holder[0]
     pf = [n for n in pt.nodes() if n["k"] == "call" and n.get("n") == "ParseFixedPoint"]
     ctx.inst(len(pf) == 1 and astq.const_value(pf[0]["args"][1]) == 8, "R13.4", "eight-decimals", pt.loc(pf[0]) if pf else pt.loc(), "amounts are parsed with 8 decimals")
     if pf:
